@@ -158,6 +158,7 @@ func runC11(c *Ctx, r *Rec) {
 		checkFreshParseState(c, r, "D5-fresh-parse-state", parser)
 		checkReentrantMethodsKeepLocals(c, r, "D5-re-entrant-methods-keep-locals", parser)
 		checkRuneErrorWithWidth(c, r, "D4-rune-error-with-width", "cdcn")
+		shapeLints(c, r, c.allFuncDecls("cdcn"))
 	}
 
 	// ---- D2
